@@ -36,6 +36,15 @@ def run(tier, seed):
                 _arr[k_] = np.array(v, dtype=float)
             return _arr[k_]
         f = lambda a, b: float(fn(A(a), A(b)))
+        _buf = {}
+
+        def fbuf(a, b):
+            # ... or the caller keeps one pair of work buffers per length and refills them in place before every evaluation: the same
+            # two array objects, other contents - the dissimilarity is one of the contents
+            bx, by = _buf.setdefault(len(a), (np.zeros(len(a)), np.zeros(len(a))))
+            bx[:] = a
+            by[:] = b
+            return float(fn(bx, by))
         first = {}
 
         def bad(clause, info):
@@ -47,9 +56,9 @@ def run(tier, seed):
             pairs = [(rng.choice(vs), rng.choice(vs)) for _ in range(200 if thorough else 50)]
             if dom != "simplex":
                 pairs += [(v, [3 * a for a in v]) for v in vs[:8]]        # parallel (3v leaves the simplex)
-            for x, y in pairs:
+            for pi_, (x, y) in enumerate(pairs):
                 try:
-                    dxy, dyx = f(x, y), f(y, x)
+                    dxy, dyx = (fbuf(x, y), fbuf(y, x)) if pi_ % 2 else (f(x, y), f(y, x))
                 except Exception as ex:
                     bad("metric_raised_on_in_domain_vectors", {"x": x, "y": y, "exception": type(ex).__name__})
                     continue
@@ -94,7 +103,7 @@ def run(tier, seed):
                 # other): d(x, x) <= d(x, y) + d(y, x) - a self-distance that is only "nearly" zero shows here
                 for k_ in range(len(vs) - 1):
                     x, y = vs[k_], vs[k_ + 1]
-                    a, b, c = f(x, x), f(x, y), f(y, x)
+                    a, b, c = (fbuf(x, x), fbuf(x, y), fbuf(y, x)) if k_ % 2 else (f(x, x), f(x, y), f(y, x))
                     nev += 3
                     if a > b + c + 1e-12 * max(abs(b), abs(c), 1e-3):
                         bad("triangle_inequality_violated", {"x": x, "y": y, "z": x, "d_xz": a, "d_xy": b, "d_yz": c})
